@@ -12,7 +12,6 @@ use crate::runner::*;
 use serde_json::{json, Value};
 use std::sync::OnceLock;
 use tiny_http::verif_rt::core::RunCfg;
-use tiny_http::verif_rt::net::CutKind;
 
 pub struct C15;
 
